@@ -1281,7 +1281,11 @@ where
     }
 
     fn to_index(&self, ix: Self::EdgeId) -> usize {
-        self.edges.get_index_of(&ix).expect("edge not found")
+        // An undirected edge is stored under its ordered key, whichever end it
+        // was reported from.
+        self.edges
+            .get_index_of(&Self::edge_key(ix.0, ix.1))
+            .expect("edge not found")
     }
 
     fn from_index(&self, ix: usize) -> Self::EdgeId {
